@@ -34,6 +34,11 @@ Expect(i) ==
   [i |-> i, parse |-> p, consistent |-> (p.ok = WellFormed(b)),
    causes |-> SetToSeq(Causes(b)), hdr |-> HeaderVerdict(b), typ |-> TypeVerdict(b),
    acc |-> IF p.ok THEN Accepted(c, b) ELSE [none |-> TRUE],
+   \* what C10 would allow to be exposed if an implementation accepted this buffer although it is not well-formed
+   \* (defined whenever the body at least tiles): lets a wrong acceptance also be judged against the exposure rule
+   hyp |-> IF ~p.ok /\ HeaderOk(b) /\ Walk(b, 20, <<>>).tiled
+             THEN [exposed |-> LET e == Exposed(Attrs(b)) IN [k \in 1..Len(e) |-> [type |-> e[k].type, value |-> Value(b, e[k])]]]
+             ELSE [none |-> TRUE],
    keyplans |-> IF Has(c, "creds") THEN [k \in 1..Len(c.creds) |-> KeyPlan(c.creds[k])] ELSE <<>>,
    cuts |-> IF Has(c, "cuts") /\ c.cuts /\ p.ok THEN Cuts(b) ELSE <<>>,
    cutlist |-> IF Has(c, "cutlist") /\ p.ok THEN CutList(b, c.cutlist) ELSE <<>>]
